@@ -403,3 +403,37 @@ def const_pure(progs):
                 if n.get('k') == 'lambda' and n.get('fn'):
                     work.append((n['fn'], False, frozenset()))
     return rr
+
+
+# ------------------------------------------------------------------------------ BYTECMP
+BYTE_COMPARE = {'memcmp', '__builtin_memcmp', 'bcmp', 'std::memcmp'}
+BITWISE_EQ_TYPES = {'bool', 'char', 'signed char', 'unsigned char', 'short', 'unsigned short', 'int', 'unsigned int', 'long', 'unsigned long', 'long long',
+                    'unsigned long long', 'wchar_t', 'char16_t', 'char32_t'}
+
+
+def bytecmp(points):
+    """points: [(prog, E)]: elements are compared for equality only through their own operator==, unless E is an integral type
+    (for which bitwise and value equality coincide).  memcmp over double (0.0 == -0.0, NaN != NaN) or over a class is a finding."""
+    rr = RuleResult('BYTECMP', 'elements are compared through their own operator==: no memcmp over an E* unless E is an integral type')
+    for prog, E in points:
+        bitwise_ok = E in BITWISE_EQ_TYPES or E.endswith('*')
+        n = 0
+        for f in prog.fns.values():
+            hits = []
+            for bc in f.get('bytecopies', []):
+                if bc['name'] in BYTE_COMPARE and any(norm_ptr(t) == E + ' *' for t in bc['argt']):
+                    hits.append((bc['name'], bc['l']))
+            if f.get('body') is not None:
+                for c in A.calls(f['body']):
+                    if A.callee(c) in BYTE_COMPARE or A.cshort(c) in ('memcmp', 'bcmp'):
+                        ts = [A.strip(a).get('t', '') for a in c.get('args', []) if isinstance(a, dict)]
+                        if any(norm_ptr(t) == E + ' *' for t in ts):
+                            hits.append((A.callee(c), prog.site(f, c)))
+            for name, loc in hits:
+                n += 1
+                if not bitwise_ok:
+                    rr.add(Finding('BYTECMP', '%s|%s' % (f['key'], E), loc,
+                                   '%s compares %s objects byte-wise: for this type bitwise equality is not operator== (e.g. 0.0 == -0.0 but their bytes differ, '
+                                   'NaN != NaN but its bytes are equal)' % (name, E), where=f['pname'], unit=prog.uname))
+        rr.instance('%s' % prog.uname, {'unit': prog.uname, 'element': E, 'bitwise_equality_is_value_equality': bitwise_ok, 'byte_comparisons_on_E*': n})
+    return rr
